@@ -215,3 +215,39 @@ def i10_json(seed):
         yield ('I10', k, 'removed'), render(rest, {})
     for alt in JSON_ALTS:
         yield ('I10', '$', alt), alt.encode('ascii')
+    # nesting deeper than the interpreter's recursion limit (arrays, objects)
+    yield ('I10', '$', 'deep-array'), b'[' * 100000
+    yield ('I10', '$', 'deep-object'), b'{"a":' * 50000
+
+
+def ssh_name_enums():
+    """String-coded SSH enumerations whose members appear on the wire as uint32-prefixed names."""
+    from cryptodatahub.ssh import algorithm as a
+    out = []
+    for name in ('SshHostKeyAlgorithm', 'SshKexAlgorithm', 'SshEncryptionAlgorithm', 'SshMacAlgorithm',
+                 'SshCompressionAlgorithm', 'SshEllipticCurveIdentifier'):
+        e = getattr(a, name, None)
+        if e is not None:
+            out.append(e)
+    return out
+
+
+def i11_names(seed, limit_occurrences=3):
+    """Every uint32-prefixed occurrence of a member name of a string-coded SSH enumeration replaced by every other
+    member name of that enumeration (length prefix recomputed): all registered names reach every parser that
+    reads one, not only the names the corpus happens to use."""
+    for e in ssh_name_enums():
+        codes = [m.value.code.encode('ascii') for m in e]
+        found = 0
+        for c in sorted(set(codes), key=len, reverse=True):
+            needle = len(c).to_bytes(4, 'big') + c
+            pos = seed.find(needle)
+            if pos < 0:
+                continue
+            found += 1
+            for other in codes:
+                if other != c:
+                    yield ('I11', e.__name__, pos, other.decode('ascii')), \
+                        seed[:pos] + len(other).to_bytes(4, 'big') + other + seed[pos + len(needle):]
+            if found >= limit_occurrences:
+                break
